@@ -4,34 +4,36 @@ from vlib import std, hbuild, coq, common
 
 PID = "C36"
 META = {
-    "text": "18 theorems (Properties_C36.v, all closed under the global context) about a line-by-line Gallina model of "
-            "lib/base64.cc (encode_raw written back to front, encode_single/update/final, decode_single/update/final with the "
-            "16-bit word and the 8-bit bits/padding counters of the C structs) and of Auth::Basic::Config::decodeCleartext plus the "
+    "text": "20 theorems (Properties_C36.v, all closed under the global context) about a line-by-line Gallina model of "
+            "lib/base64.cc at /repo HEAD (encode_raw written back to front, encode_single/update/final, decode_single/update/final "
+            "with the 16-bit word and the 8-bit bits/padding counters of the C structs), of the libnettle 3.8 decoder this build "
+            "links (same code with the older padding test; selected by a flag) and of Auth::Basic::Config::decodeCleartext plus the "
             "user:password split of Auth::Basic::Config::decode. For ALL byte strings and ALL ways of cutting the input into "
             "update() calls: the encoder output is the RFC 4648 encoding (spec written from the RFC over the literal alphabet); "
-            "decoding it, again under any cutting and with any white space interleaved, returns the input exactly; the decoder's "
-            "verdict and output do not depend on the cutting; every decode_update call from any reachable context stores at most "
-            "BASE64_DECODE_LENGTH(src_length) bytes whether it accepts or rejects and never reaches the abort() arm; the accepted "
-            "language is characterised exactly (accepted => canonical encoding of the output, or that followed by the quirk "
-            "'A==='); any byte outside alphabet/'='/white space is rejected. Basic: for credentials without NUL/CR/LF the result of "
-            "the whole path scheme SP base64 [LF ...] is (bytes before the first colon, lower-cased unless casesensitive; bytes "
-            "after it). Tables (alphabet, 256-entry decode table, the four length macros, struct field sizes; bundled copy and the "
-            "linked libnettle) are regenerated from the code on every run and the theorems re-checked against them. The model is "
-            "tied to the code by differential runs of the extracted model against (a) the bundled copy compiled from the working "
-            "tree inside the harness unit (HAVE_NETTLE_BASE64_H forced to 0), (b) the libnettle functions squid links, (c) the real "
-            "Auth::Basic::Config::decodeCleartext()/decode() (src/auth/basic/Config.cc #included into the harness unit, linked with "
-            "every in-tree squid object except main.o) under ASan+UBSan with guard-zone write detection; all 16.7M strings of "
-            "length 3 are swept on both implementations on every run.",
-    "note": "Findings kept as _refuted theorems + known findings: (1) C36-A-triple-pad: 'A===' (one zero symbol + three '=') is "
-            "accepted as an empty quantum by the bundled copy and by libnettle 3.8 (C36_strict_rejection_refuted; "
-            "C36_malformed_rejected_partial excludes exactly that suffix); (2) C36-basic-nul-truncation: a NUL inside decoded Basic "
-            "credentials silently truncates user name / password and hides CR/LF behind it (C36_basic_split_refuted_by_nul; "
-            "C36_basic_credentials_partial assumes no NUL). White space (HT LF VT FF CR SP) inside base64 is skipped by design of "
-            "the decoder and is not counted as malformed. Not modelled: the utf8=on transcoding branch of decodeCleartext (utf8 is "
-            "off in the harness, the default); the user cache side effects of decode(). Trusted: Coq kernel, extraction, "
-            "gen/gen_b64.cc, harness/h_b64.cc + harness/h_b64_basic.h (four no-op symbols of main.cc are supplied there).",
+            "decoding it, under any cutting and with any white space interleaved, returns the input exactly; the decoder's verdict "
+            "and output do not depend on the cutting; every decode_update call from any reachable context stores at most "
+            "BASE64_DECODE_LENGTH(src_length) bytes whether it accepts or rejects and never reaches the abort() arm (all of these for "
+            "both decoders). Bundled copy: C36_malformed_rejected at full strength (accepted => input is, white space aside, the "
+            "canonical encoding of the output). Basic: for ALL user names and passwords the whole path scheme SP base64 [LF ...] is "
+            "refused when they contain NUL/CR/LF and otherwise yields (bytes before the first colon, lower-cased unless "
+            "casesensitive; bytes after it). Tables (alphabet, 256-entry decode table, the four length macros, struct field sizes; "
+            "bundled copy and linked libnettle) are regenerated from the code on every run and the theorems re-checked against them. "
+            "The model is tied to the code by differential runs of the extracted model against (a) the bundled copy compiled from "
+            "the working tree inside the harness unit (HAVE_NETTLE_BASE64_H forced to 0), (b) the libnettle functions squid links, "
+            "(c) the real Auth::Basic::Config::decodeCleartext()/decode() (src/auth/basic/Config.cc #included into the harness unit, "
+            "linked with every in-tree squid object except main.o) under ASan+UBSan with guard-zone write detection; all 16.7M "
+            "strings of length 3 are swept on both implementations on every run.",
+    "note": "Remaining known finding C36-nettle-A-triple-pad: the linked libnettle 3.8 (system library, outside /repo) accepts "
+            "'A===' (one zero symbol + three '=') as an empty quantum, so `Basic A===` yields empty credentials "
+            "(C36_nettle_strict_rejection_refuted, C36_nettle_accepted_language_exact, C36_nettle_malformed_rejected_partial); the "
+            "same defect of the bundled copy (bb5de60) and the NUL truncation of Basic credentials (06c1c79) are fixed in /repo and "
+            "their reproducers are regression cases (corpus/C36/regress.txt). White space (HT LF VT FF CR SP) inside base64 is "
+            "skipped by design of the decoder and is not counted as malformed. Not modelled: the utf8=on transcoding branch of "
+            "decodeCleartext (utf8 is off in the harness, the default); the user cache side effects of decode(). The nettle model is "
+            "validated by correspondence only (its source is not in /repo). Trusted: Coq kernel, extraction, gen/gen_b64.cc, "
+            "harness/h_b64.cc + harness/h_b64_basic.h (four no-op symbols of main.cc are supplied there).",
     "technique": "Coq proof (induction over triples/quanta, forward simulation encoder-context ~ streaming spec, inversion of "
-                 "the decoder step for the accepted-language theorem, lia over div/mod; vm_compute sweeps over the regenerated "
+                 "the decoder step for the accepted-language theorems, lia over div/mod; vm_compute sweeps over the regenerated "
                  "64/256-entry tables) + extracted-model differential correspondence + exhaustive implementation sweep of all "
                  "strings of length <= 3 judged by an independent Python oracle",
 }
@@ -278,8 +280,8 @@ def sweep3_crc(a0):
     return _SWEEP[a0]
 
 
-def check_dec_answer(inp_chunks, ans):
-    """one implementation's answer to a decode case"""
+def check_dec_answer(inp_chunks, ans, tag):
+    """one implementation's answer to a decode case (tag = bundled | nettle)"""
     w = ans.split()
     if "BAD-" in ans or w[0] not in ("ok", "trunc", "rej") or len(w) != 2:
         return ("oracle:dec-unsafe", "decoder wrote outside the promised size / broke its accounting: " + ans[:200])
@@ -295,7 +297,7 @@ def check_dec_answer(inp_chunks, ans):
         return None
     if w[0] == "ok":
         if core.endswith(b"A===") and canonical_decode(core[:-4]) == got and len(got) % 3 == 0:
-            return ("oracle:dec-accepts-A===", "malformed input (zero symbol followed by three '=') accepted")
+            return ("oracle:dec-accepts-A===:" + tag, "malformed input (zero symbol followed by three '=') accepted")
         return ("oracle:dec-accepts-malformed", "malformed base64 accepted as %s" % hx(got))
     return None
 
@@ -310,7 +312,7 @@ def oracle(case, out):
             halves = out.split(" | ")
             if len(halves) != 2:
                 return ("oracle:format", "expected two answers (bundled | nettle)")
-            for which, ans in zip(("bundled lib/base64.cc", "linked libnettle"), halves):
+            for which, tag, ans in zip(("bundled lib/base64.cc", "linked libnettle"), ("bundled", "nettle"), halves):
                 v = None
                 if op in ("b64.enc", "b64.raw"):
                     src = unhx(a[-1])
@@ -321,7 +323,7 @@ def oracle(case, out):
                     if ans != "ok " + hx(src):
                         v = ("oracle:roundtrip", "decode(encode(x)) != x")
                 elif op == "b64.dec":
-                    v = check_dec_answer(chunks_of(a[1], unhx(a[2])), ans)
+                    v = check_dec_answer(chunks_of(a[1], unhx(a[2])), ans, tag)
                 elif op == "b64.isweep3":
                     exp = "n=65536 rtfail=0 rawdiff=0 lenbad=0 crc=%d" % sweep3_crc(int(a[1]))
                     if ans != exp:
@@ -344,15 +346,19 @@ def oracle(case, out):
                 if out == "null":
                     return None
                 if core.endswith(b"A===") and canonical_decode(core[:-4]) is not None:
-                    return ("oracle:basic-accepts-A===", "credentials with malformed base64 (…A===) accepted")
+                    # decodeCleartext runs the base64 decoder the build links, which is libnettle here
+                    return ("oracle:basic-accepts-A===:nettle", "credentials with malformed base64 (…A===) accepted")
                 return ("oracle:basic-accepts-malformed", "credentials with malformed base64 accepted")
             m = re.match(r"^user=(\S+) pass=(\S+) ct=(\S+)$", out)
-            if b"\r" in clear or b"\n" in clear:
-                # CR / LF inside credentials: must not produce credentials containing them
+            if b"\x00" in clear:
+                # credentials are C strings inside squid: a NUL cannot be represented, so they must be refused
                 if out == "null":
                     return None
-                if b"\x00" in clear and m and b"\r" not in unhx(m.group(1)) + unhx(m.group(3)) and b"\n" not in unhx(m.group(1)) + unhx(m.group(3)):
-                    return ("oracle:basic-nul-truncation", "NUL in credentials hides the CR/LF behind it")
+                return ("oracle:basic-nul", "credentials containing NUL were not refused (user name / password truncated)")
+            if b"\r" in clear or b"\n" in clear:
+                # CR / LF inside credentials: must not produce credentials
+                if out == "null":
+                    return None
                 return ("oracle:basic-crlf", "credentials containing CR/LF were not refused")
             if not m:
                 return ("oracle:basic-refused", "valid credentials %s refused" % hx(clear))
@@ -361,11 +367,6 @@ def oracle(case, out):
             euser, sep, epw = clear.partition(b":")
             if not cs:
                 euser = bytes(c + 32 if 65 <= c <= 90 else c for c in euser)
-            if b"\x00" in clear:
-                if user == euser and (pw or b"") == epw and (sep or pw is None):
-                    return None
-                return ("oracle:basic-nul-truncation", "NUL in credentials truncates user name / password: expected user=%s pass=%s"
-                        % (hx(euser), hx(epw)))
             if user != euser:
                 return ("oracle:basic-user", "user name is not the text before the first colon (%s)" % hx(euser))
             if (pw or b"") != epw or (pw is not None and not sep):
